@@ -781,7 +781,9 @@ fn collapse_root_stack_to<NumericTypes: EvalexprNumericTypes>(
     loop {
         if let Some(mut potential_higher_root) = root_stack.pop() {
             // TODO I'm not sure about this >, as I have no example for different sequence operators with the same precedence
-            if potential_higher_root.operator().precedence() > collapse_goal.operator().precedence()
+            if potential_higher_root.operator() != &Operator::RootNode
+                && potential_higher_root.operator().precedence()
+                    > collapse_goal.operator().precedence()
             {
                 potential_higher_root.children.push(root);
                 root = potential_higher_root;
@@ -960,8 +962,22 @@ pub(crate) fn tokens_to_operator_tree<NumericTypes: EvalexprNumericTypes>(
                         } else {
                             // If the new sequence doesn't have a higher precedence, then all sequences with a higher precedence are collapsed below this one
                             root = collapse_root_stack_to(&mut root_stack, root, &node)?;
-                            node.children.push(root);
-                            root_stack.push(node);
+                            match root_stack.last_mut() {
+                                // The collapsed sequence is an element of an open sequence of the same kind
+                                Some(lower_root)
+                                    if mem::discriminant(lower_root.operator())
+                                        == mem::discriminant(node.operator()) =>
+                                {
+                                    lower_root.children.push(root);
+                                    lower_root.children.push(Node::root_node());
+                                },
+                                // Otherwise it is the first element of a new sequence
+                                _ => {
+                                    node.children.push(root);
+                                    node.children.push(Node::root_node());
+                                    root_stack.push(node);
+                                },
+                            }
                         }
                     }
                 // println!("Stack after sequence operation: {:?}", root_stack);
